@@ -67,6 +67,10 @@ class C36(ValueCheck):
             return
         stmts = [rec, ["as_numer_denom", R(0)], ["as_real_imag", R(0)], ["rewrite_as_exp", R(0)], ["rewrite_as_sin", R(0)],
                  ["rewrite_as_cos", R(0)], ["expand_as_exp", R(0)], ["trig_to_sqrt", R(0)], ["conjugate", R(0)]]
+        first = self.run(stmts[:1])
+        if not is_exc(first[0]) and any(t in str(first[0]) for t in ("'Infty'", "'NaN'")):
+            self.skip("expression_contains_infinity")   # (conjugate(x*zoo) is a bad downcast: recorded for C40)
+            return
         res = self.run(stmts)
         if is_exc(res[0]):
             self.skip("assert_seen" if res[0]["exc"] == "VerifAssertFailure" else "declined:" + res[0]["exc"])
